@@ -197,6 +197,43 @@ def printSerial (v : Bool × Nat) : Str :=
 def canonSerial (t : Str) : Option Str :=
   if t = [] then none else (parseSerial t).map printSerial
 
+/-! ## the ACME revoke-cert handler in front of `Authority.Revoke`
+
+  /repo/acme/api/revoke.go `RevokeCert`, in the order of the code: (1) who signed the request — the account that owns
+  the certificate (kid), another valid account (kid; refused 403: "an account holding authorizations for all identifiers"
+  is not implemented, the code fails closed), the certificate's own key (jwk; accepted), some other key (jwk; the handler
+  verifies the JWS against the certificate's public key: 403); (2) `IsRevoked` read: already revoked ⇒ alreadyRevoked (400);
+  (3) the reason code: absent, or 0..10 except 7, else badRevocationReason (400); (4) `Authority.Revoke`. -/
+
+inductive AcmeSigner where
+  | owner | otherAccount | certKey | otherKey
+  deriving Repr, DecidableEq
+
+inductive AcmeOut where
+  | ok | already | unauthorized | badReason | err
+  deriving Repr, DecidableEq
+
+def acmeReasonOK : Option Int → Bool
+  | none => true
+  | some r => decide (0 ≤ r) && decide (r ≤ 10) && r != 7
+
+def AcmeSigner.authorized : AcmeSigner → Bool
+  | .owner | .certKey => true
+  | _ => false
+
+/-- one revoke-cert request served to completion (sequential histories): answer and new tables -/
+def acmeRevoke (g : G) (key : Str) (tag : Nat) (signer : AcmeSigner) (reason : Option Int) : G × AcmeOut :=
+  if !signer.authorized then (g, .unauthorized)
+  else if has g.x509 key then (g, .already)
+  else if !acmeReasonOK reason then (g, .badReason)
+  else
+    let r : Req := { inp := { kind := .revokeX false, key := key, tag := tag, fault := .none, crlFails := false, otherOK := true } }
+    let s := machine.run (g, [r]) [.step 0, .step 0, .step 0]
+    (s.1, match s.2.map (·.out) with
+          | [Out.ok] => AcmeOut.ok
+          | [Out.already] => AcmeOut.already
+          | _ => AcmeOut.err)
+
 /-! ## SSH serial canonicalisation (`SSHRevokeRequest.Validate`, since c1e180f) -/
 
 /-- `strconv.ParseUint(s, 10, 64)` digit loop: decimal digits only -/
